@@ -116,7 +116,7 @@ func c14Pair(par map[string]string) string {
 	go func() { wg.Wait(); <-tdone; close(fin) }()
 	select {
 	case <-fin:
-	case <-time.After(15 * time.Second):
+	case <-time.After(5 * time.Second):
 		return "viol hang"
 	}
 	if len(log) != total {
